@@ -577,7 +577,13 @@ fn index_cons(vals: &[&PV], perms: &[Vec<usize>], acc: &mut Acc) {
                         if *v == *w && !has {
                             acc.hit(format!("index:get-misses-equal-value:{}", if i == j { t() } else { trigger(&[v, w]) }), || format!("get({}) = {got:?} misses node {id} holding {} although the two values are ==", show(v), show(w)), || wit("subset", vals));
                         }
-                        if has && !(*v == *w || v.cmp(w) == Ordering::Equal) {
+                        // An index lookup answers Cypher's `=`, under which an Integer and a Float of the
+                        // same numeric value are equal (1 = 1.0): a numeric twin coming back is admissible.
+                        let numeric_twin = match (*v, *w) {
+                            (PV::Integer(i), PV::Float(f)) | (PV::Float(f), PV::Integer(i)) => (*i as f64) == *f,
+                            _ => false,
+                        };
+                        if has && !(*v == *w || v.cmp(w) == Ordering::Equal || numeric_twin) {
                             acc.hit(format!("index:get-returns-unequal-value:{}", trigger(&[v, w])), || format!("get({}) returned node {id} holding {}", show(v), show(w)), || wit("subset", vals));
                         }
                     }
